@@ -430,9 +430,9 @@ def probes(ctx, H, RSV):
 
     def ask(t, lines):
         j = U.t_json(t)
-        all_lines = ['load ' + j.hex()] + lines
+        all_lines = ['timeout 250', 'load ' + j.hex()] + lines      # probes expect hangs on the pinned tree: short CPU-time limit
         res, err = hrun(H, all_lines, timeout=300)
-        return j, all_lines, res[1:], err
+        return j, all_lines[1:], res[2:], err
 
     # (1) fixed buffer of exactly the reserve
     j, ls, res, err = ask({'s': b'hello'}, ['sweep 0 0 %d %d' % (RSV, RSV), 'sweep 0 2 %d %d' % (RSV, RSV)])
